@@ -48,13 +48,20 @@ pub enum Kind {
     RecCalls,
     /// a stateful call as the argument of another stateful call
     ArgCall,
+    /// a state cell of dsp's own: `mem(x)` written inline in dsp, between the calls of the other
+    /// voices (dsp's children are then a mix of cells and calls)
+    InMem,
+    /// `delay(N, x, d)` written inline in dsp
+    InDly,
 }
 
 /// Kinds used for generation. `Kind::Gate` (stateful calls in both arms of an `if`) is NOT in this
 /// list: on the pinned tree the VM underflows its state position on such programs (panic with
 /// overflow checks, heap corruption / abort without) even in a fault-free run. That is a crash of
 /// an accepted program (C03/C05 territory, not claimed here) and would only kill workers.
-pub const ALL_KINDS: [Kind; 25] = [
+pub const ALL_KINDS: [Kind; 27] = [
+    Kind::InMem,
+    Kind::InDly,
     Kind::Counter,
     Kind::Leaky,
     Kind::Lag2,
@@ -172,6 +179,8 @@ impl Voice {
             Kind::TupCalls => "tupcalls".into(),
             Kind::RecCalls => "reccalls".into(),
             Kind::ArgCall => "argcall".into(),
+            Kind::InMem => "mem".into(),
+            Kind::InDly => "delay".into(),
         };
         base
     }
@@ -192,8 +201,9 @@ impl Voice {
             Kind::Counter | Kind::SrPhase | Kind::ArrPhase | Kind::GlobK | Kind::MainCl => vec![lit(self.p[0])],
             Kind::Duo | Kind::DlySrc => vec![],
             Kind::Leaky => vec![x, lit(self.p[0])],
-            Kind::Lag2 | Kind::Mfb | Kind::Mmf => vec![x],
+            Kind::Lag2 | Kind::Mfb | Kind::Mmf | Kind::InMem => vec![x],
             Kind::Echo => vec![x, lit(self.p[0])],
+            Kind::InDly => vec![format!("{}", self.n), x, lit(self.p[0])],
             Kind::EchoMod => vec![x, lit(self.p[0]), lit(self.p[1])],
             Kind::Pair => vec![lit(self.p[0])],
             Kind::Nest | Kind::Deep | Kind::CntMem | Kind::TupCalls | Kind::RecCalls | Kind::ArgCall => vec![lit(self.p[0])],
@@ -251,6 +261,7 @@ impl Voice {
                 "fn leaky(x,g){\n  x + self * g\n}".into(),
             )],
             Kind::Lag2 => vec![("lag2".into(), "fn lag2(x){\n  mem(mem(x))\n}".into())],
+            Kind::InMem | Kind::InDly => vec![],
             Kind::Mfb => vec![(
                 "mfb".into(),
                 "fn mfb(x){\n  let m = mem(x)\n  self * 0.5 + m\n}".into(),
@@ -431,15 +442,15 @@ pub struct Model {
 impl Model {
     pub fn zero(v: &Voice) -> Model {
         let ns = match v.kind {
-            Kind::Counter | Kind::Leaky | Kind::Clk | Kind::SrPhase | Kind::ArrPhase | Kind::GlobK | Kind::MainCl => 1,
+            Kind::Counter | Kind::Leaky | Kind::Clk | Kind::SrPhase | Kind::ArrPhase | Kind::GlobK | Kind::MainCl | Kind::InMem => 1,
             Kind::Lag2 | Kind::Mfb | Kind::Pair | Kind::Nest | Kind::CntMem | Kind::Late | Kind::TupCalls => 2,
             Kind::ArgCall => 4,
             Kind::Gate | Kind::Wide | Kind::Deep | Kind::Mmf | Kind::LateMem | Kind::RecCalls => 3,
-            Kind::Echo | Kind::Duo => 0,
+            Kind::Echo | Kind::Duo | Kind::InDly => 0,
             Kind::EchoMod | Kind::Comb | Kind::DlySrc => 1,
         };
         let ring = match v.kind {
-            Kind::Echo | Kind::EchoMod | Kind::Comb | Kind::DlySrc => vec![0.0; v.n as usize],
+            Kind::Echo | Kind::EchoMod | Kind::Comb | Kind::DlySrc | Kind::InDly => vec![0.0; v.n as usize],
             _ => vec![],
         };
         Model {
@@ -526,7 +537,12 @@ impl Model {
                 self.s[1] = self.s[1] * 0.5 + m;
                 self.s[1]
             }
-            Kind::Echo => self.ring_process(x, p[0]),
+            Kind::Echo | Kind::InDly => self.ring_process(x, p[0]),
+            Kind::InMem => {
+                let o = self.s[0];
+                self.s[0] = x;
+                o
+            }
             Kind::EchoMod => {
                 let ph = Self::phasor(&mut self.s[0], p[1]);
                 self.ring_process(x, p[0] + ph)
@@ -637,6 +653,7 @@ impl Model {
 }
 
 const DELAY_LENS: [u32; 8] = [2, 3, 4, 7, 16, 33, 64, 100];
+pub const INLINE_DELAY_LEN: u32 = 7;
 
 /// Draw a voice of the given kind with random parameters.
 pub fn gen_voice(rng: &mut Rng, id: u32, kind: Kind, n_in: u32, max_delay: u32) -> Voice {
@@ -644,6 +661,7 @@ pub fn gen_voice(rng: &mut Rng, id: u32, kind: Kind, n_in: u32, max_delay: u32) 
     let gain = |r: &mut Rng| *r.pick(&[0.0, 0.25, 0.5, 0.75, 0.875, 1.0]);
     let lens: Vec<u32> = DELAY_LENS.iter().copied().filter(|l| *l <= max_delay.max(2)).collect();
     let n = *rng.pick(&lens);
+    let n = if kind == Kind::InDly { INLINE_DELAY_LEN } else { n };
     let input = match rng.below(if n_in > 0 { 5 } else { 3 }) {
         0 => InputSrc::Now,
         1 => InputSrc::NowScaled(small(rng)),
@@ -670,7 +688,7 @@ pub fn gen_voice(rng: &mut Rng, id: u32, kind: Kind, n_in: u32, max_delay: u32) 
             p[0] = small(rng);
             p[1] = *rng.pick(&[0.0, 1.0, 3.0, 10.0, 40.0, 200.0]);
         }
-        Kind::Echo => p[0] = rng.range(1, (n - 1) as u64) as f64 + if rng.chance(1, 4) { 0.5 } else { 0.0 },
+        Kind::Echo | Kind::InDly => p[0] = rng.range(1, (n - 1) as u64) as f64 + if rng.chance(1, 4) { 0.5 } else { 0.0 },
         Kind::EchoMod => {
             // lo + ph stays within [1, n-1]: ph in [0, per-1]
             let per = rng.range(1, (n - 1).max(1) as u64);
@@ -687,8 +705,13 @@ pub fn gen_voice(rng: &mut Rng, id: u32, kind: Kind, n_in: u32, max_delay: u32) 
             p[0] = rng.range(1, (n - 1) as u64) as f64;
             p[1] = *rng.pick(&[0.0, 0.25, 0.5, 0.75]);
         }
-        Kind::Lag2 | Kind::Mfb | Kind::Mmf => {}
+        Kind::Lag2 | Kind::Mfb | Kind::Mmf | Kind::InMem => {}
     }
+    // On the pinned tree the VM looks up the ring size of EVERY `delay` of a function at index 0 of
+    // the function's `delay_sizes` (`delaysizes_pos_stack` is pushed as 0 per call and never
+    // advanced): two delays of different lengths in one function run over the state storage
+    // (garbage output, heap corruption). That is a defect of plain execution, not of hot swap, so
+    // all inline delays of dsp share one length (INLINE_DELAY_LEN, set where `n` is drawn).
     let mut v = Voice {
         id,
         kind,
@@ -764,7 +787,7 @@ pub fn tweak_constant(rng: &mut Rng, v: &mut Voice) -> bool {
             v.p[1] = if v.p[1] == 0.5 { 0.25 } else { 0.5 };
             true
         }
-        Kind::Echo => {
+        Kind::Echo | Kind::InDly => {
             let n = v.n as u64;
             if n <= 2 {
                 return false;
@@ -777,7 +800,7 @@ pub fn tweak_constant(rng: &mut Rng, v: &mut Voice) -> bool {
             v.p[0] = d as f64;
             true
         }
-        Kind::Lag2 | Kind::Mfb | Kind::Mmf => match v.input {
+        Kind::Lag2 | Kind::Mfb | Kind::Mmf | Kind::InMem => match v.input {
             InputSrc::Const(c) => {
                 v.input = InputSrc::Const(c + 0.25);
                 true
